@@ -960,4 +960,84 @@ theorem alc_pkt_spec_decode (oti : Oti) (cci tsi : Nat) (pkt : Pkt) (rfc3926 : B
     rw [← hl, List.drop_left, List.take_left]
   · rw [← hl, ← List.length_append, ← List.append_assoc, List.drop_left]
 
+
+/-! ## receiver leniency the RFC asks for: reserved bits, version 2, every EXT_TIME Use combination -/
+
+/-- **lct_parse_ignores_version2_reserved**: RFC 5651 receivers MUST ignore the reserved bits, and flute also accepts
+    version 2 in the V field: take ANY valid RFC header `f` (as in `lct_parse_eq_spec`), overwrite its V field by
+    `v ∈ {1, 2}` and its two reserved bits by any `res < 4` (i.e. replace the first two octets accordingly): flute's parser
+    returns the same values, and the extension walk the same extensions. -/
+theorem lct_parse_ignores_version2_reserved (f : LctFields) (hv : f.Valid) (payload : List Nat) (v res het : Nat)
+    (hv2 : v = 1 ∨ v = 2) (hres : res < 4) :
+    let d := [v * 16 + f.c * 4 + f.psi, f.s * 128 + f.o * 32 + f.h * 16 + res * 4 + f.a * 2 + f.b]
+              ++ (f.encode ++ payload).drop 2
+    parseLctHeader d = .ok (parsedOf f) ∧
+    getExt d (parsedOf f) het = .ok ((findExt f.exts het).map Ext.encode) := by
+  intro d
+  have hv' := hv
+  obtain ⟨h1, hc, hpsi, hs, ho, hh, ha, hb, hcp, hcci, htsi, htoi, hhl, hexts⟩ := hv'
+  have hle := length_encodeExts f.exts hexts
+  have hcci' : f.cci < 256 ^ ((f.c + 1) * 4) := by
+    have : f.cciBits = 8 * ((f.c + 1) * 4) := by unfold LctFields.cciBits; omega
+    rw [this, Nat.pow_mul] at hcci; exact hcci
+  have htsi' : f.tsi < 256 ^ (f.s * 4 + f.h * 2) := by
+    have : f.tsiBits = 8 * (f.s * 4 + f.h * 2) := by unfold LctFields.tsiBits; omega
+    rw [this, Nat.pow_mul] at htsi; exact htsi
+  have htoi' : f.toi < 256 ^ (f.o * 4 + f.h * 2) := by
+    have : f.toiBits = 8 * (f.o * 4 + f.h * 2) := by unfold LctFields.toiBits; omega
+    rw [this, Nat.pow_mul] at htoi; exact htoi
+  have hd : d = [v * 16 + f.c * 4 + f.psi, f.s * 128 + f.o * 32 + f.h * 16 + res * 4 + f.a * 2 + f.b, f.hdrLen, f.cp]
+      ++ (beBytes ((f.c + 1) * 4) f.cci ++ (beBytes (f.s * 4 + f.h * 2) f.tsi ++ (beBytes (f.o * 4 + f.h * 2) f.toi
+      ++ (encodeExts f.exts ++ payload)))) := by
+    show _ ++ (f.encode ++ payload).drop 2 = _
+    unfold LctFields.encode
+    rw [LctFields.encode_diagram f hv]
+    simp only [List.append_assoc, List.cons_append, List.nil_append, List.drop_succ_cons, List.drop_zero]
+  have hparse := parse_layout v f.c f.psi f.s f.o f.h res f.a f.b f.hdrLen f.cp f.cci f.tsi f.toi (encodeExts f.exts ++ payload)
+    hv2 hc hpsi hs ho hh hres ha hb hcci' htsi' htoi'
+    (by unfold LctFields.hdrLen; omega)
+    (by simp only [List.length_append, hle]; unfold LctFields.hdrLen; omega)
+  have hpo : parseLctHeader d = .ok (parsedOf f) := by
+    rw [hd, hparse]
+    unfold parsedOf
+    congr 2
+    · omega
+    · apply decide_eq_decide.mpr; omega
+    · apply decide_eq_decide.mpr; omega
+    · omega
+  refine ⟨hpo, ?_⟩
+  -- the extension area is untouched
+  unfold getExt
+  have hs : slice d (parsedOf f).headerExtOffset (parsedOf f).len = .ok (encodeExts f.exts) := by
+    rw [hd]
+    have e : ([v * 16 + f.c * 4 + f.psi, f.s * 128 + f.o * 32 + f.h * 16 + res * 4 + f.a * 2 + f.b, f.hdrLen, f.cp] ++
+        (beBytes ((f.c + 1) * 4) f.cci ++ (beBytes (f.s * 4 + f.h * 2) f.tsi ++ (beBytes (f.o * 4 + f.h * 2) f.toi ++
+        (encodeExts f.exts ++ payload))))) =
+        ([v * 16 + f.c * 4 + f.psi, f.s * 128 + f.o * 32 + f.h * 16 + res * 4 + f.a * 2 + f.b, f.hdrLen, f.cp] ++
+        beBytes ((f.c + 1) * 4) f.cci ++ beBytes (f.s * 4 + f.h * 2) f.tsi ++ beBytes (f.o * 4 + f.h * 2) f.toi) ++
+        (encodeExts f.exts ++ payload) := by simp only [List.append_assoc]
+    rw [e]
+    apply slice_mid
+    · simp only [List.length_append, List.length_cons, List.length_nil, length_beBytes]; unfold parsedOf; simp only []; omega
+    · simp only [List.length_append, List.length_cons, List.length_nil, length_beBytes, hle]
+      unfold parsedOf LctFields.hdrLen; simp only []; omega
+  rw [hs, Out.bind_ok]
+  exact getExtLoop_encodeExts f.exts hexts het _ (Nat.le_refl _)
+
+/-- **ext_time_parse_spec_general**: `parse_sct` on the RFC 5651 §5.2.2 layout of EXT_TIME in EVERY legal Use
+    combination (SCT-High / SCT-Low / ERT / SLC each present or not, any reserved and PI-specific bits, the time values
+    in RFC order): no sender current time when SCT-High is absent; otherwise `ntp_to_system_time` of SCT-High as seconds
+    and SCT-Low (0 when absent) as fraction - ERT and SLC are skipped -/
+theorem ext_time_parse_spec_general (hi lo ert slc resv pi : Nat) (vals : List Nat) (hhi : hi < 2) (hlo : lo < 2)
+    (hert : ert < 2) (hslc : slc < 2) (hresv : resv < 16) (hpi : pi < 256) (hn : vals.length = hi + lo + ert + slc)
+    (hv : ∀ v ∈ vals, v < 2^32) :
+    parseSct (Spec.encode (extTimeDiagram hi lo ert slc resv pi vals)) =
+      if hi = 0 then .ok none else
+      (ntpToSystemTime (vals.headD 0 * 2^32 + (if lo = 1 then (vals.drop 1).headD 0 else 0))).bind fun t => .ok (some t) := by
+  unfold extTimeDiagram
+  rw [encode_append _ _ (by simp [width]) (by rw [width_vals]; omega) (fieldsOk_vals vals hv), encode_vals vals hv]
+  have hw := time_first_word vals.length hi lo ert slc resv pi (by omega) hhi hlo hert hslc hresv hpi
+  rw [hw]
+  exact parseSct_general hi lo ert slc resv pi vals hhi hlo hert hslc hresv hn hv
+
 end Flute.Props.C06
